@@ -275,7 +275,7 @@ pub fn run(ctx: &Ctx) -> Report {
     // header ranges then depend on WHEN the running box is reset.
     let items: Vec<(i32, bool, usize, usize)> = types
         .iter()
-        .flat_map(|&t| [true, false].into_iter().flat_map(move |x| (0..blocks).flat_map(move |b| (0..if gen::carries_m(t) && !cfg!(miri) { 2 } else { 1 }).map(move |v| (t, x, b, v)))))
+        .flat_map(|&t| [true, false].into_iter().flat_map(move |x| (0..blocks).flat_map(move |b| (0..if gen::carries_m(t) && !cfg!(miri) { 3 } else { 1 }).map(move |v| (t, x, b, v)))))
         .collect();
     let mut rep = par(ctx, items.len(), |idx, rep| {
         let (t, with_shx, block, variant) = items[idx];
@@ -283,6 +283,9 @@ pub fn run(ctx: &Ctx) -> Report {
         let (sa, sb) = gen::two_sizes(t, &mut r);
         let (sa, sb) = if variant == 1 {
             (crate::shapes::with_uniform_z_m(&sa, f64::INFINITY, f64::NEG_INFINITY), crate::shapes::with_uniform_z_m(&sb, 2.5, -3.5))
+        } else if variant == 2 {
+            // variant 2: every Z and M of shape a is NaN (it contributes nothing to the header ranges)
+            (crate::shapes::with_uniform_z_m(&sa, f64::NAN, f64::NAN), crate::shapes::with_uniform_z_m(&sb, 2.5, 3.5))
         } else {
             (sa, sb)
         };
@@ -291,7 +294,7 @@ pub fn run(ctx: &Ctx) -> Report {
                 continue;
             }
             for ending in 0..4 {
-                let case = format!("c09:t{}:x{}:w{}:e{}{}", t, with_shx as u8, wi, ending, if variant == 1 { ":inf" } else { "" });
+                let case = format!("c09:t{}:x{}:w{}:e{}{}", t, with_shx as u8, wi, ending, [ "", ":inf", ":nan"][variant]);
                 if !ctx.want(&case) {
                     continue;
                 }
